@@ -312,7 +312,53 @@ def check(ctx):
     tried_flag(ctx, P, fns)
     capacity(ctx, P, fns["AddrManImpl::Unserialize"], K)
     pairing(ctx, P, fns)
+    no_phantom_entries(ctx, P)
     ctx.floor("C37 obligations", len(ctx.obs), 60)
+
+
+# ------------------------------------------------------------------------------------------------ (0)
+# `mapInfo[k]` inserts a default AddrInfo (refcount 0, not tried, in no bucket, not in mapAddr / vRandom) when k is absent: CheckAddrman() fails with -4 from then
+# on.  Every subscript of mapInfo must therefore (a) be the documented creation of an entry, (b) use a key read from a bucket slot (buckets hold only present ids -
+# shape invariant stated by CheckAddrman), or (c) be reached only where `mapInfo.contains(k)` is known.  A key of any other provenance is an undecided idiom (exit 2);
+# a key from the pending-collision set (whose entries may have been deleted meanwhile) or a checked-only-afterwards key without (c) is a violation.
+MAPINFO = [".", ["this"], "AddrManImpl::mapInfo"]
+CREATORS = {"AddrManImpl::Create": "allocates a fresh id (nIdCount++) and assigns a constructed AddrInfo first",
+            "AddrManImpl::Unserialize": "builds the table from disk: ids 0..nNew-1 / nIdCount are created here, bucket_entries are range-checked against nNew"}
+
+
+def no_phantom_entries(ctx, P):
+    n = 0
+    for q, fs in sorted(P.funcs.items()):
+        if not q.startswith("AddrManImpl::"):
+            continue
+        for f in fs:
+            nm = dict(naming(f, P))
+            for k, v in local_defs(f, P, extra_ok=tuple(st["n"] for st in stmts(f.body) if st.get("k") == "decl" and st.get("n") and st.get("ty") in ("nid_type", "const nid_type"))).items():
+                nm.setdefault(k, v)      # id-typed single-definition locals (nid_type is not one of the engine's "simple" types)
+            for s in sites(f, lambda e: e[0] == "idx" and e[1] == MAPINFO, P):
+                n += 1
+                if q in CREATORS:
+                    continue
+                ctx.used(f)
+                key = F.expand(s.expr[2], nm)
+                ktxt = F.key(key)
+                form = s.formula(nm)
+                slot = is_expr(key) and key[0] == "idx" and is_expr(key[1]) and key[1][0] == "idx" and key[1][1] in ([".", ["this"], "AddrManImpl::vvNew"], [".", ["this"], "AddrManImpl::vvTried"])
+                known = any(re.fullmatch(r"(this->)?mapInfo\.(contains|count)\(%s\)" % re.escape(ktxt), a) and F.implies(form, F.atom(a)) for a in F.atoms(form))
+                if not known:
+                    known = any(re.fullmatch(r"(this->)?mapInfo\.find\(%s\) == (this->)?mapInfo\.end\(\)" % re.escape(ktxt), a) and F.implies(form, F.mk_not(F.atom(a))) for a in F.atoms(form))
+                if slot or known:
+                    ctx.ob("no-phantom/%s@L%s" % (short_name(q), s.line), "GUARD", "mapInfo[%s] in %s cannot insert: the key is %s" % (
+                        show(s.expr[2]), short_name(q), "read from a bucket slot" if slot else "known to be present (mapInfo.contains on the path)"), True, s.where)
+                    continue
+                from_collisions = "m_tried_collisions" in ktxt or any("m_tried_collisions" in a for a in F.atoms(form))
+                if from_collisions:
+                    ctx.ob("no-phantom/%s@L%s" % (short_name(q), s.line), "GUARD", "mapInfo[%s] in %s is reached only where mapInfo.contains(%s) is known: an id queued in "
+                           "m_tried_collisions may have been deleted meanwhile, and operator[] would insert a phantom entry (refcount 0, in no table) that fails "
+                           "CheckAddrman" % (show(s.expr[2]), short_name(q), show(s.expr[2])), False, s.where, {"key": ktxt, "path_condition": F.fshow(form)})
+                    continue
+                raise AnalysisBroken("C37: mapInfo[%s] at %s: key provenance not recognised (neither a bucket slot nor guarded by mapInfo.contains)" % (show(s.expr[2]), s.where))
+    ctx.floor("mapInfo subscript sites", n, 12)
 
 
 # ------------------------------------------------------------------------------------------------ (1)
